@@ -87,9 +87,11 @@ impl Prop for C04 {
          number of times, in any order, or never), reconciliation sessions cut after a generated number of messages, restarts of \
          file-backed replicas; then complete sessions are swept along a generated connected pair set until a sweep transfers \
          nothing. Oracle: at every step every stored entry is byte-identical to a locally written one; at the end all replicas hold \
-         the same entries = merge of all accepted local writes, within n+2 sweeps. non-trivial = >= 3 replicas, a deletion \
-         interleaved with a late older write under its prefix, >= 1 cut session and >= 1 lost or duplicated delivery; distinct by \
-         serialised case"
+         the same entries = merge of all accepted local writes, within n+2 sweeps. About 1.5 % of the cases are live swarms of 2..=4 real \
+         nodes on the loopback network driven through the client API (see livenet.rs: stable-sweep convergence, client events, \
+         read-only nodes, restarts, download policies vs. fetched content). non-trivial = >= 3 replicas, a deletion \
+         interleaved with a late older write under its prefix, >= 1 cut session and >= 1 lost or duplicated delivery (live swarm: a judged stable sweep, >= 2 writing nodes, and a key \
+         written by the same author at two nodes or a deletion); distinct by serialised case"
             .into()
     }
 
@@ -167,7 +169,8 @@ impl Prop for C04 {
         vec![
             "'eventually' is turned into a safety check at quiescence of the closing sweeps; liveness beyond that is out of reach".into(),
             "clock skews stay within +-290 s so that no honest entry crosses the 10-minute future bound".into(),
-            "broadcast is modelled as delivery of individual entries through insert_remote_entry (what the gossip handler does with a Put)".into(),
+            "broadcast is modelled as delivery of individual entries through insert_remote_entry (what the gossip handler does with a Put); in the live family it is the real gossip".into(),
+            "live family: scheduled by the real network, not a pure function of the seed; convergence is judged only on a stable closing sweep, a case without one is counted (live/closing-not-reached) and not judged".into(),
         ]
     }
 }
